@@ -3,12 +3,12 @@
     (parse.rs unquote_string / unquote_bytes); [render] spells a string in a one-quote style with
     a free choice, per character, between the verbatim character and every applicable escape
     form; the triple-quoted forms take the same bodies (and, raw, any characters at all).
-    For the one-quote styles the whole path is proved ([C12_string_compiles],
-    [C12_bytes_compiles]): the lexer model takes the spelling as ONE STRING / BYTES token, the
-    parser makes a literal of it, and its value is the string / the bytes.  For the triple-quoted
-    and raw styles the theorems are about decoding the token; that the lexer takes those spellings
-    as one token is the correspondence run.  Known finding K01 (raw triple-quoted literals
-    containing U+0000 or U+10FFFF are rejected by the ANTLR runtime's lexer) lies in that part. *)
+    The whole path is proved for every style ([C12_string_compiles], [C12_bytes_compiles],
+    [C12_raw_compiles]): the lexer model takes the spelling as ONE STRING / BYTES token, the
+    parser makes a literal of it, and its value is the string / the bytes.  (Raw bodies: without
+    the quote character; raw bytes literals are not covered.)  Known finding K01 (raw
+    triple-quoted literals containing U+0000 or U+10FFFF are rejected by the ANTLR runtime's
+    lexer) is the exclusion in [raw_ok3]. *)
 From Coq Require Import String Ascii.
 From Cel.Model Require Import Literals Surface.
 From Cel.Proofs Require Import LiteralProofs LexerRoundtrip.
@@ -92,32 +92,38 @@ Theorem C12_raw_verbatim_triple : forall p q s,
 Proof. exact raw_verbatim_long. Qed.
 
 (** From source text to the value: the spelled literal (followed by a space) compiles to the
-    literal expression holding exactly the string - lexer, parser and decoder together. *)
+    literal expression holding exactly the string - lexer, parser and decoder together - in the
+    one-quote and in the triple-quoted style. *)
 Theorem C12_string_compiles : forall q s ks body,
   (q = 34 \/ q = 39) -> forallb is_scalar s = true -> render q s ks = Some body ->
-  compile (q :: body ++ [q; 32]) = CExpr (ELit (VStr s)).
-Proof.
-  intros q s ks body Hq Hs Hr. pose proof (string_literal_compiles q s ks body Hq Hs Hr) as H.
-  cbn [text flat_map tok_text app] in H. rewrite app_nil_r in H.
-  replace (q :: body ++ [q; 32]) with ((q :: body ++ [q]) ++ [32]); [exact H|].
-  cbn [app]. now rewrite <- app_assoc.
-Qed.
+  compile (text [TString (q :: body ++ [q])]) = CExpr (ELit (VStr s)) /\
+  compile (text [TString (q :: q :: q :: body ++ [q; q; q])]) = CExpr (ELit (VStr s)).
+Proof. exact string_literal_compiles. Qed.
 
 Theorem C12_bytes_compiles : forall p q s ks body,
   (p = ch "b" \/ p = ch "B") -> (q = 34 \/ q = 39) -> forallb is_scalar s = true ->
   render q s ks = Some body ->
-  exists us, compile (p :: q :: body ++ [q; 32]) = CExpr (ELit (VBytes (flat_map unit_bytes us))) /\
-             map unit_cp us = s.
-Proof.
-  intros p q s ks body Hp Hq Hs Hr. destruct (bytes_literal_compiles p q s ks body Hp Hq Hs Hr) as (us & H & Hu).
-  exists us. split; [|exact Hu]. cbn [text flat_map tok_text app] in H. rewrite app_nil_r in H.
-  replace (p :: q :: body ++ [q; 32]) with ((p :: q :: body ++ [q]) ++ [32]); [exact H|].
-  cbn [app]. now rewrite <- app_assoc.
-Qed.
+  (exists us, map unit_cp us = s /\
+     compile (text [TBytes (p :: q :: body ++ [q])]) = CExpr (ELit (VBytes (flat_map unit_bytes us)))) /\
+  (exists us, map unit_cp us = s /\
+     compile (text [TBytes (p :: q :: q :: q :: body ++ [q; q; q])]) = CExpr (ELit (VBytes (flat_map unit_bytes us)))).
+Proof. exact bytes_literal_compiles. Qed.
+
+(** Raw literals compile to their body verbatim: one-quote style for bodies without the quote
+    and line breaks, triple-quoted style for bodies without the quote character (and without
+    U+0000 / U+10FFFF: known finding K01). *)
+Theorem C12_raw_compiles : forall p q s,
+  (p = ch "r" \/ p = ch "R") -> (q = 34 \/ q = 39) ->
+  (raw_ok1 q s = true -> compile (text [TString (p :: q :: s ++ [q])]) = CExpr (ELit (VStr s))) /\
+  (raw_ok3 q s = true -> compile (text [TString (p :: q :: q :: q :: s ++ [q; q; q])]) = CExpr (ELit (VStr s))).
+Proof. exact raw_literal_compiles. Qed.
 
 Example C12_ex_compiles : compile $"""h\n\u00e9"" " = CExpr (ELit (VStr [104; 10; 233])).
-Proof. exact (C12_string_compiles 34 [104; 10; 233] [CVerb; CSimple; CU4] _ (or_introl eq_refl) eq_refl eq_refl). Qed.
+Proof. exact (proj1 (C12_string_compiles 34 [104; 10; 233] [CVerb; CSimple; CU4] _ (or_introl eq_refl) eq_refl eq_refl)). Qed.
+Example C12_ex_raw : compile $"r'''a\b""c''' " = CExpr (ELit (VStr $"a\b""c")).
+Proof. exact (proj2 (C12_raw_compiles (ch "r") 39 $"a\b""c" (or_introl eq_refl) (or_intror eq_refl)) eq_refl). Qed.
 
+Print Assumptions C12_raw_compiles.
 Print Assumptions C12_string_compiles.
 Print Assumptions C12_bytes_compiles.
 Print Assumptions C12_string_roundtrip.
